@@ -137,6 +137,16 @@ impl MacroEvalExprFlags {
     pub(super) const fn follow_arg_mode(self) -> MacroEvalNextArgumentMode {
         macro_eval_next_arg_mode_from_u8(self.0 >> Self::NEXT_ARG_SHIFT)
     }
+
+    #[cfg(sas_lexer_verif)]
+    pub(super) const fn bits(self) -> u8 {
+        self.0
+    }
+
+    #[cfg(sas_lexer_verif)]
+    pub(super) const fn from_bits(b: u8) -> Self {
+        Self(b)
+    }
 }
 
 /// The context of the macro argmunet/value context.
@@ -207,6 +217,16 @@ impl MacroArgNameValueFlags {
 
     pub(super) const fn terminate_on_comma(self) -> bool {
         self.0 & Self::TERMINATE_ON_COMMA_MASK != 0
+    }
+
+    #[cfg(sas_lexer_verif)]
+    pub(super) const fn bits(self) -> u8 {
+        self.0
+    }
+
+    #[cfg(sas_lexer_verif)]
+    pub(super) const fn from_bits(b: u8) -> Self {
+        Self(b)
     }
 }
 
